@@ -4,7 +4,7 @@
 From Coq Require Import List NArith Bool String.
 From GQL Require Import Base.Bytes Types.Schema Types.Consistent Proofs.TypesReduce Proofs.TypesNames
   Proofs.TypesClosed Proofs.TypesView Proofs.TypesImpl Proofs.TypesMain Proofs.TypesPossible
-  Proofs.TypesConsistent Proofs.TypesOracle Proofs.TypesAppend Proofs.TypesFuel.
+  Proofs.TypesConsistent Proofs.TypesOracle Proofs.TypesAppend Proofs.TypesFuel Proofs.TypesAgree.
 Import ListNotations.
 Open Scope string_scope.
 Open Scope N_scope.
@@ -107,6 +107,63 @@ Theorem C11_fuel_sufficient_append : forall f0 f1 c sch0 ts0 sch ts,
 Proof. exact append_types_terminates. Qed.
 Print Assumptions C11_fuel_sufficient_append.
 
+(* Appending types afterwards and supplying them up front agree: the same verdict (NewSchema with
+   the extra types succeeds exactly when NewSchema without them followed by AppendType of each, in
+   the order given, succeeds), and on success the same schema -- same definitions, roots and type
+   map, hence the same types, implementation and possible-type tables (PossibleTypes and
+   IsPossibleType rows) on the public view. *)
+Theorem C11_append_agrees_with_upfront : forall c ts,
+  ((exists sch2, new_schema (with_types c ts) = OK sch2) <->
+   (exists sch0 sch1, new_schema c = OK sch0 /\ append_types sch0 ts = OK sch1))
+  /\ forall sch0 sch1 sch2, new_schema c = OK sch0 -> append_types sch0 ts = OK sch1 ->
+       new_schema (with_types c ts) = OK sch2 -> same_schema sch1 sch2 /\ same_view (view_of sch1) (view_of sch2).
+Proof.
+  intros c ts. split.
+  - unfold new_schema, append_types. change (c_defs (with_types c ts)) with (c_defs c).
+    destruct (append_agrees_fuel (fuel_for (c_defs c)) c ts) as [H1 H2]. split.
+    + intro H. destruct (H1 H) as (S0 & S1 & E0 & E1). exists S0, S1. split; [exact E0|].
+      destruct (new_schema_fuel_tm _ _ _ E0) as (D0 & _). rewrite D0. exact E1.
+    + intros (S0 & S1 & E0 & E1). apply H2. exists S0, S1. split; [exact E0|].
+      destruct (new_schema_fuel_tm _ _ _ E0) as (D0 & _). rewrite D0 in E1. exact E1.
+  - intros sch0 sch1 sch2 H0 H1 H2. split.
+    + exact (append_commutes _ _ _ c ts sch0 sch1 sch2 H0 H1 H2).
+    + exact (append_commutes_view _ _ _ c ts sch0 sch1 sch2 H0 H1 H2).
+Qed.
+Print Assumptions C11_append_agrees_with_upfront.
+
+(* the same on the failure side (no third outcome: fuel never runs out) *)
+Theorem C11_append_agrees_on_failure : forall c ts,
+  new_schema (with_types c ts) = Err <->
+  (new_schema c = Err \/ exists sch0, new_schema c = OK sch0 /\ append_types sch0 ts = Err).
+Proof.
+  intros c ts. destruct (C11_append_agrees_with_upfront c ts) as [[H1 H2] _]. split.
+  - intro E. destruct (new_schema c) as [S0| |] eqn:E0.
+    + right. exists S0. split; [reflexivity|]. destruct (append_types S0 ts) as [S1| |] eqn:E1.
+      * destruct (H2 (ex_intro _ S0 (ex_intro _ S1 (conj eq_refl E1)))) as [S2 E2]. rewrite E in E2. discriminate.
+      * reflexivity.
+      * exfalso. exact (append_types_terminates (fuel_for (c_defs c)) 0 c S0 [] S0 ts E0 eq_refl E1).
+    + left. reflexivity.
+    + exfalso. exact (new_schema_terminates c E0).
+  - intros [E0|(S0 & E0 & E1)].
+    + destruct (new_schema (with_types c ts)) as [S2| |] eqn:E2; [|reflexivity|exfalso; exact (new_schema_terminates _ E2)].
+      destruct (H1 (ex_intro _ S2 eq_refl)) as (S0 & S1 & X & _). rewrite E0 in X. discriminate.
+    + destruct (new_schema (with_types c ts)) as [S2| |] eqn:E2; [|reflexivity|exfalso; exact (new_schema_terminates _ E2)].
+      destruct (H1 (ex_intro _ S2 eq_refl)) as (S0' & S1 & X & Y). rewrite E0 in X. inversion X; subst S0'. rewrite E1 in Y. discriminate.
+Qed.
+Print Assumptions C11_append_agrees_on_failure.
+
+(* any partition of the extra types into "supplied up front" and "appended afterwards" *)
+Theorem C11_append_any_partition : forall c t1 t2,
+  (exists sch, new_schema (with_types c (t1 ++ t2)) = OK sch) <->
+  (exists sch0 sch1, new_schema (with_types c t1) = OK sch0 /\ append_types sch0 t2 = OK sch1).
+Proof.
+  intros c t1 t2. destruct (C11_append_agrees_with_upfront (with_types c t1) t2) as [H _].
+  assert (E : with_types (with_types c t1) t2 = with_types c (t1 ++ t2)).
+  { unfold with_types. simpl. rewrite <- app_assoc. reflexivity. }
+  rewrite E in H. exact H.
+Qed.
+Print Assumptions C11_append_any_partition.
+
 (* ---------- non-vacuity ---------- *)
 Definition ex_cfg : config :=
   with_meta (Cfg
@@ -151,3 +208,13 @@ Proof. vm_compute. reflexivity. Qed.
 Example C11_nonvacuous_fuel :
   new_schema_fuel 2 ex_cfg = OutOfFuel /\ (exists sch, new_schema_fuel (List.length (c_defs ex_cfg)) ex_cfg = OK sch).
 Proof. split; [vm_compute; reflexivity|vm_compute; eexists; reflexivity]. Qed.
+
+(* both sides of the agreement occur: a conforming implementer appended afterwards is accepted both
+   ways, a non-conforming one ([User2.next] is not a subtype of [Node.next]) is rejected both ways *)
+Example C11_nonvacuous_agrees :
+  let base := Cfg (c_defs ex_cfg ++ [(103, DObject (s "User2") (RList [Some 100]) [(s "id", FieldOf (TNonNull (TNamed 5)) []); (s "next", FieldOf (TNamed 1) [])] true)])
+                  (Some 102) None None [] [] in
+  (exists a b, new_schema (with_types base [TNamed 101]) = OK a /\ match new_schema base with OK s0 => append_types s0 [TNamed 101] = OK b | _ => False end)
+  /\ new_schema (with_types base [TNamed 101; TNamed 103]) = Err
+  /\ match new_schema base with OK s0 => append_types s0 [TNamed 101; TNamed 103] = Err | _ => False end.
+Proof. split; [vm_compute; eexists; eexists; split; reflexivity|]. split; vm_compute; reflexivity. Qed.
